@@ -134,7 +134,13 @@ impl SwiftField for Field52B {
         // Check for location
         if current_idx < lines.len() {
             let loc = lines[current_idx];
-            if !loc.is_empty() && loc.len() <= 35 {
+            // A location longer than 35 characters is an error, not something to drop silently
+            if loc.len() > 35 {
+                return Err(ParseError::InvalidFormat {
+                    message: format!("Field 52B location exceeds 35 characters: {}", loc.len()),
+                });
+            }
+            if !loc.is_empty() {
                 parse_swift_chars(loc, "Field 52B location")?;
                 location = Some(loc.to_string());
             }
